@@ -116,6 +116,15 @@ claim("C13",
       "through CTE)",
       "DESIGN.md section 4 (C13)")
 
+claim("C04",
+      "The real LineageRunner on 2-4 statement scripts (12 chain shapes + 6 session-metadata scripts); the intermediate tables' names at "
+      "the write site and at the read site are INDEPENDENT free names and the column names are free, so 'reads what was written' and 'consumes "
+      "what was produced' are solver case splits; expected = relational composition (roots-to-leaves reachability) of the per-statement oracle "
+      "dataflows computed on the same symbolic names, table roles per C03's definition; with a provider, SELECT * / unqualified columns / "
+      "positional INSERT use what the session learned, also against a stale catalog entry. Witnesses replayed on the unmodified library.",
+      TRUST + "; parser boundary stubbed; one open finding (same unresolved column name merged across statements) reported as KNOWN-FINDING",
+      "DESIGN.md section 4 (C04)")
+
 ALL = ["C%02d" % i for i in range(1, 19)]
 
 
